@@ -167,6 +167,10 @@ impl CelValue {
         CelValue::Err(val)
     }
 
+    fn overflow() -> CelValue {
+        CelError::Value("integer overflow".to_owned()).into()
+    }
+
     pub fn value_error(msg: &str) -> CelValue {
         CelError::Value(msg.to_owned()).into()
     }
@@ -1241,12 +1245,16 @@ impl Add for CelValue {
             match lhs {
                 CelValue::Int(val1) => {
                     if let CelValue::Int(val2) = rhs {
-                        return CelValue::from(val1 + val2);
+                        return val1
+                            .checked_add(val2)
+                            .map_or_else(CelValue::overflow, CelValue::from);
                     }
                 }
                 CelValue::UInt(val1) => {
                     if let CelValue::UInt(val2) = rhs {
-                        return CelValue::from(val1 + val2);
+                        return val1
+                            .checked_add(val2)
+                            .map_or_else(CelValue::overflow, CelValue::from);
                     }
                 }
                 CelValue::Float(val1) => {
@@ -1313,12 +1321,16 @@ impl Sub for CelValue {
             match lhs {
                 CelValue::Int(val1) => {
                     if let CelValue::Int(val2) = rhs {
-                        return CelValue::from(val1 - val2);
+                        return val1
+                            .checked_sub(val2)
+                            .map_or_else(CelValue::overflow, CelValue::from);
                     }
                 }
                 CelValue::UInt(val1) => {
                     if let CelValue::UInt(val2) = rhs {
-                        return CelValue::from(val1 - val2);
+                        return val1
+                            .checked_sub(val2)
+                            .map_or_else(CelValue::overflow, CelValue::from);
                     }
                 }
                 CelValue::Float(val1) => {
@@ -1364,12 +1376,16 @@ impl Mul for CelValue {
             match lhs {
                 CelValue::Int(val1) => {
                     if let CelValue::Int(val2) = rhs {
-                        return CelValue::from(val1 * val2);
+                        return val1
+                            .checked_mul(val2)
+                            .map_or_else(CelValue::overflow, CelValue::from);
                     }
                 }
                 CelValue::UInt(val1) => {
                     if let CelValue::UInt(val2) = rhs {
-                        return CelValue::from(val1 * val2);
+                        return val1
+                            .checked_mul(val2)
+                            .map_or_else(CelValue::overflow, CelValue::from);
                     }
                 }
                 CelValue::Float(val1) => {
@@ -1409,7 +1425,9 @@ impl Div for CelValue {
                             return CelValue::from_err(CelError::DivideByZero);
                         }
 
-                        return CelValue::from(val1 / val2);
+                        return val1
+                            .checked_div(val2)
+                            .map_or_else(CelValue::overflow, CelValue::from);
                     }
                 }
                 CelValue::UInt(val1) => {
@@ -1454,11 +1472,20 @@ impl Rem for CelValue {
             match lhs {
                 CelValue::Int(val1) => {
                     if let CelValue::Int(val2) = rhs {
-                        return CelValue::from(val1 % val2);
+                        if val2 == 0 {
+                            return CelValue::from_err(CelError::DivideByZero);
+                        }
+
+                        // i64::MIN % -1 is 0, but the plain operator overflows on it
+                        return CelValue::from(val1.wrapping_rem(val2));
                     }
                 }
                 CelValue::UInt(val1) => {
                     if let CelValue::UInt(val2) = rhs {
+                        if val2 == 0 {
+                            return CelValue::from_err(CelError::DivideByZero);
+                        }
+
                         return CelValue::from(val1 % val2);
                     }
                 }
@@ -1485,7 +1512,9 @@ impl Neg for CelValue {
 
         match self {
             CelValue::Int(val1) => {
-                return CelValue::from(-val1);
+                return val1
+                    .checked_neg()
+                    .map_or_else(CelValue::overflow, CelValue::from);
             }
             CelValue::Float(val1) => {
                 return CelValue::from(-val1);
